@@ -85,8 +85,16 @@ def build(kind, x0, x1, n):
     raise ValueError(kind)
 
 
+ENTRY = H.P('entry', 'statement')
+
+
 def outcome(st, data, ctx):
     try:
+        if ENTRY == 'interface':
+            # the host-facing wrapper: YaqlInterface(host context, engine)(text, positional data, keyword data);
+            # the host context gets nothing, not even the arguments
+            from yaql import yaql_interface
+            return ('ok', yaql_interface.YaqlInterface(ctx, st.engine)(str(st), data, extra=data))
         return ('ok', st.evaluate(data=data, context=ctx))
     except Exception as e:
         return ('err', type(e).__name__)
@@ -331,6 +339,12 @@ def conditions(tier, seed):
                     'bounds': '%s (%s.%s parameter %s) with $ = %s, n in %s, x0,x1 %s, convertInputData symbolic'
                               % (text, mod, name, label, L.KINDS[kind][1], ns,
                                  'in [0,2] (elements are hashed/printed or the call raises)' if bounded else 'unbounded')})
+    for kind, text in (('list', '$.select($).len() + $extra.len()'), ('dict', '$.keys().len() + $extra.len()'),
+                       ('list', 'let(x => $) -> $x.len()'), ('set', '$.len()'), ('list', '$hv.insert(0, $extra).len()')):
+        out.append({'name': 'interface[%s | %s]' % (text, kind), 'func': 'apply', 'timeout': t,
+                    'param': {'text': text, 'kind': kind, 'ns': ns, 'bounded': kind == 'set', 'entry': 'interface'},
+                    'bounds': 'YaqlInterface(host context, engine)(%r, host %s, extra => the same): host data, host context and '
+                              'the chain unchanged, result not aliased; n in %s' % (text, kind, ns)})
     npool = 6 if quick else len(POOL)
     for first in range(npool):
         out.append({'name': 'history[%d,*,*]' % first, 'func': 'history', 'timeout': t,
